@@ -59,8 +59,9 @@ TestTruth(t, f, now) ==
          LET have == PermOf(f.mode)  want == BitsOf(t.m) IN
          IF t.chk = "eq" THEN have = want
          ELSE IF t.chk = "all" THEN want \subseteq have
-         ELSE \* "any": find: true if any of the bits is set; -perm /000 matches everything in GNU find
-              \*        >= 4.5.12 but nothing before; left to the implementation: see FindSemUnspecified
+         ELSE \* "any": true if any of the GIVEN bits is set (property C08).  With no bit given that is
+              \* false for every file (GNU find >= 4.5.12 special-cases -perm /000 to match everything;
+              \* the property as stated does not, and neither does the implementation).
               want \cap have # {}
 
 \* constructs on which find's own documentation is not definite: not judged by C02
@@ -68,8 +69,7 @@ RECURSIVE SemUnspecified(_)
 SemUnspecified(t) ==
   IF IsBinary(t) THEN SemUnspecified(t.l) \/ SemUnspecified(t.r)
   ELSE IF IsUnary(t) THEN SemUnspecified(t.e)
-  ELSE \/ (t.k = "perm" /\ t.chk = "any" /\ t.m = 0)
-       \* a backslash in a pattern quotes the next character for fnmatch but is an ordinary character
+  ELSE \* a backslash in a pattern quotes the next character for fnmatch but is an ordinary character
        \* for the literal comparison the code generator selects when the pattern has no wildcard:
        \* what such a pattern means is left to the runtime
        \/ (t.k \in {"name", "iname", "path", "ipath"} /\ HasChar(t.s, cBSL))
